@@ -2,6 +2,7 @@ import XeofsProofs.Bridge
 import XeofsProofs.Lemmas.Small
 import XeofsProofs.Lemmas.Corr
 import Mathlib.Algebra.BigOperators.Intervals
+import XeofsModel.Generated.Facts
 /-!
 # C19 — OPA returns uncorrelated series ordered by their own decorrelation time
 -/
@@ -60,5 +61,9 @@ theorem src_symmetric_descending_solver : Gen.opaUsesSymmetricDescendingSolver =
 
 /-- **opa_sorted** is the order the symmetric solver returns (descending), cf. `C11.rot_sorted` for the sort itself -/
 example : Gen.opaLagWeightTimesTwo 3 3 = 1 ∧ Gen.opaLagWeightTimesTwo 2 3 = 2 ∧ Gen.opaLagWeightTimesTwo 300 300 = 1 := by decide
+
+/-- source obligation: the inner EOF that pre-reduces the data keeps its default centring (the PCs must have zero mean for the
+lag covariances to be covariances) -/
+theorem src_opa_inner_eof_centres : Gen.opaInnerEOF.lookup "center" = none := by decide
 
 end C19
